@@ -1,6 +1,6 @@
 SPECIFICATION Spec
 CONSTANTS
-  MaxSteps = 4
+  MaxSteps = 3
   MaxIdx = 3
   Watch = TRUE
   Ms = FALSE
